@@ -27,6 +27,7 @@ ASSUMPTIONS = [
 OK1 = "~ id: ok1 ~ $[*][yes()]"
 OK2 = '~ id: ok2 ~ $[*][@c = count() print("p $.csvpath.line_number ")]'
 OK3 = '~ id: ok3 ~ $[*][push("s", #0)]'
+LATE = '~ id: late ~ $[3][push("s", #3)]'  # a member whose only scanned record is record 3: a breadth-first abort before that leaves it unfinished
 EARLY = '~ id: early ~ $[0-1][push("s", #3)]'  # a member whose scan ends at record 1: in a breadth-first run it has finished before a later abort
 KINDS = {
     "argtype": ("@e = add(#1, 1)", ["g", "1", "1"], ["b", "x", "1"]),
@@ -69,6 +70,7 @@ def cases(tier, seed):
             for pos in range(4):
                 for m in groups.METHODS:
                     yield {"gsize": gsize, "abidx": abidx, "kind": "argtype", "via": "config", "n": 4, "pos": pos, "method": m, "follow": "same", "early": True}
+                    yield {"gsize": gsize, "abidx": abidx, "kind": "argtype", "via": "config", "n": 4, "pos": pos, "method": m, "follow": "same", "early": "late"}
 
 
 def sample(case):
@@ -82,7 +84,9 @@ def run_case(case):
     gsize, abidx, kind, via, n, pos, method = (case[k] for k in ("gsize", "abidx", "kind", "via", "n", "pos", "method"))
     oks = [OK1, OK2, OK3]
     okids = ["ok1", "ok2", "ok3"]
-    if case.get("early"):
+    if case.get("early") == "late":
+        oks, okids = [LATE, OK2, OK3], ["late", "ok2", "ok3"]
+    elif case.get("early"):
         oks, okids = [EARLY, OK2, OK3], ["early", "ok2", "ok3"]
     members, ids = [], []
     j = 0
@@ -100,7 +104,7 @@ def run_case(case):
     cp = groups.fresh(policy=policy)
     src = sandbox.write_csv(rows)
     groups.register(cp, src, members)
-    src2 = sandbox.write_csv([list(good) + [str(i)] for i in range(2)])
+    src2 = sandbox.write_csv([list(good) + [str(i)] for i in range(4 if case.get("early") == "late" else 2)])
     cp.file_manager.add_named_file(name="d2", path=src2)
     inputs_before = canon.raw_tree(os.path.join(sandbox.root(), "inputs"))
     lines, exc = groups.run_method(cp, method)
@@ -171,6 +175,10 @@ def run_case(case):
                     )
                     if man is not None and man.get("completed") is not True:
                         bad("a member that finished earlier does not say completed", man.get("completed"), True)
+            if ident == "late" and not serial and pos < 3:
+                # breadth-first: the run was aborted before this member's only scanned record; it has started and not finished
+                if man is not None and man.get("completed") is not False:
+                    bad("a started member that never reached its scanned record says completed", man.get("completed"), False)
             if ident == "early" and not serial and pos >= 2:
                 # breadth-first: this member's scan ($[0-1]) ended before the record on which another member aborted
                 if man is None or man.get("completed") is not True:
